@@ -424,6 +424,8 @@ class Gen:
         sh = self._shape(i[1].reference)
         comp = [d for d in defs if self._shape(d[1]) == sh]
         d = self.pick(comp)
+        if d is None:
+            return None
         if d[1] is not i[1].reference:
             self.w.count("probe.repoint_compatible")
         return {"op": "set_reference", "on": i[0], "x": d[0]}
